@@ -99,7 +99,10 @@ class REG(GL_book_model):
         # Add a decorative equation: Government Fiscal Balance
         # = Primary Balance - Interest expense + Central Bank Dividend (= interest
         # received by the central bank).
-        tre.AddVariable('FISCBAL', 'Fiscal Balance', 'PRIM_BAL - INTDEP + CB__INTDEP')
+        # Refer to the central bank's interest income through the sector object, so that the name is also
+        # right when this country is embedded in a multi-country model (where full codes gain a prefix).
+        cb.AddVariable('INTDEP', 'Interest received on deposits', '')
+        tre.AddVariable('FISCBAL', 'Fiscal Balance', 'PRIM_BAL - INTDEP + ' + cb.GetVariableName('INTDEP'))
         tre.SetEquationRightHandSide('DEM_GOOD', 'DEM_GOOD_N + DEM_GOOD_S')
         tre.AddVariable('DEM_GOOD_N', 'Demand for goods in the North', '')
         tre.AddVariable('DEM_GOOD_S', 'Demand for goods in the South', '')
